@@ -120,10 +120,11 @@ def execute(tid, universe, calls, rnd=None):
             _, err = outcome(lambda: add_fixed_joint(m, s))
         else:
             # guard the one input on which the implementation does not return (drives-cycle, observation O1)
+            from gearpy.mechanical_objects import MotorBase
             seen, x = set(), m
             while x is not None and id(x) not in seen:
                 seen.add(id(x)); x = getattr(x, 'drives', None)
-            if x is not None:
+            if x is not None and isinstance(m, MotorBase):      # a non-motor is refused before the chain is walked
                 st.update(t='diverges', err='', attrs=project(objs), pts=[dict(p) for p in _pts(pts, objs)])
                 steps.append(st)
                 continue
